@@ -76,6 +76,30 @@ func properties() map[string]*PropertyDef {
 		LevelNote:   "assumed library contracts listed under assumptions (net, netip); callbacks through the AddrPort() interface are arbitrary; trusted: go/ssa lowering, govc encoding, solvers",
 		Technique:   "contract-based deductive verification (govc): modular postconditions over abstract netip values + lemmas, WP over go/ssa, z3/cvc5",
 	})
+	ps = append(ps, &PropertyDef{
+		ID:       "C16",
+		Patterns: []string{"./netutil/urlutil"},
+		Funcs:    []string{"netutil/urlutil.RedactUserinfo", "netutil/urlutil.RedactUserinfoInURLError"},
+		Lemmas:   []string{"redactNonInterference"},
+		Kinds:    map[string]bool{"ensures": true, "frame": true, "requires": true, "lemma": true},
+		NeedsClauses: map[string][]string{
+			"netutil/urlutil.RedactUserinfo":           {"no_userinfo_as_is", "fresh_copy", "masked", "rest_equal", "exact_copy", "input_unchanged", "frame/"},
+			"netutil/urlutil.RedactUserinfoInURLError": {"redacted_text", "untouched_without_userinfo", "frame/"},
+			"lemma:redactNonInterference":              {"components_equal", "userinfo_equal", "userinfo_is_mask"},
+		},
+		ExtraChecks: func(eng *Engine, run *checkRun) {
+			checkGlobalImmutable(eng, run, modulePrefix+"/netutil/urlutil", "redactedUserinfo")
+		},
+		Assumptions: []string{
+			"(*url.URL).String() is a function of the URL's field values (specs/url.spec); hence field-wise equal results print identically",
+			"an error whose dynamic type is *url.Error holds a non-nil pointer (a typed-nil *url.Error inside the interface would make the documented-precondition-free function dereference nil; outside this property's statement)",
+			"the documented precondition u != nil",
+		},
+		Explanation: "heap reasoning on a struct copy: two-state postconditions with an explicit frame (nothing that existed at entry changes except the URL field of a top-level *url.Error), a store scan for the shared mask variable, and non-interference as a self-composition lemma over the contract",
+		LevelText:   "proof: for every URL value the result is the input itself (no userinfo) or a fresh copy equal in every component except User == the shared mask; nothing reachable at entry is modified; two inputs differing only in non-nil userinfo give component-wise equal results (self-composition over the contract); RedactUserinfoInURLError writes exactly the URL text of a top-level *url.Error, and only when the URL has userinfo",
+		LevelNote:   "assumed: URL.String is a function of field values; safety obligations (nil dereference on a typed-nil *url.Error) are outside this property; trusted: go/ssa lowering, govc encoding, solvers",
+		Technique:   "contract-based deductive verification (govc): two-state postconditions + frame obligations + self-composition lemma over the contract, WP over go/ssa, z3/cvc5",
+	})
 	out := map[string]*PropertyDef{}
 	for _, p := range ps {
 		out[p.ID] = p
